@@ -539,6 +539,37 @@ theorem inv6_step (n : Nat) (s s' : Sys) (hreach : Reachable n s) (h : Inv6 n s)
     · rfl
     · intro x hx; exact hx
     · intro l t idx iterm hm; exact hm
+  | fsmApply i =>
+    rcases fsmApply_cases n s i with heq | ⟨e, _, heq⟩
+    · rw [heq]; exact h
+    · rw [heq]
+      apply inv6_frame n s _ h
+      · intro j; simp only [setNode_nodes]; split
+        · rename_i hj; subst hj; rfl
+        · rfl
+      · intro j; simp only [setNode_nodes]; split
+        · rename_i hj; subst hj; exact ⟨rfl, rfl, rfl⟩
+        · exact ⟨rfl, rfl, rfl⟩
+      · intro j; simp only [setNode_nodes]; split
+        · rename_i hj; subst hj; exact Nat.le_refl _
+        · exact Nat.le_refl _
+      · rfl
+      · intro x hx; exact hx
+      · intro l t idx iterm hm; exact hm
+  | fsmRestore i =>
+    apply inv6_frame n s _ h
+    · intro j; simp only [apply, setNode_nodes]; split
+      · rename_i hj; subst hj; rfl
+      · rfl
+    · intro j; simp only [apply, setNode_nodes]; split
+      · rename_i hj; subst hj; exact ⟨rfl, rfl, rfl⟩
+      · exact ⟨rfl, rfl, rfl⟩
+    · intro j; simp only [apply, setNode_nodes]; split
+      · rename_i hj; subst hj; exact Nat.le_refl _
+      · exact Nat.le_refl _
+    · rfl
+    · intro x hx; exact hx
+    · intro l t idx iterm hm; exact hm
   | compact i b =>
     simp only [enabled] at hen
     obtain ⟨hi, hb⟩ := hen
